@@ -89,6 +89,13 @@ Step make_param_step(Rng &r, const Profile &pf, const std::string &group, const 
             prod *= static_cast<uint64_t>(v);
         }
         if (nd == 1 && r.chance(1, 10)) { dims[0] = 200 + static_cast<int64_t>(r.below(56)); prod = static_cast<uint64_t>(dims[0]); } // near the 255 limit
+        if (type != 3 && !bad && r.chance(1, 120)) {
+            // a big table: one record of 20..64 KB (the 16-bit record length above and below 32767)
+            uint64_t bytes = 20000 + r.below(44000);
+            uint64_t a = 100 + r.below(156);
+            uint64_t b = std::max<uint64_t>(1, std::min<uint64_t>(255, bytes / (type == 2 ? 4 : 2) / a));
+            nd = 2; dims.assign({static_cast<int64_t>(a), static_cast<int64_t>(b)}); prod = a * b;
+        }
         count = prod;
     }
     if (badKind >= 2) {
